@@ -1031,6 +1031,25 @@ class Run:
             return "skip"
         self.steal_note = False
         self.unloaded_note = False
+        if a2 % 13 == 5 and OS.state_of(pa["obj"]) == "persistent" and not self.cfg.get("o2o_steal"):
+            # net-zero assignments on the one-to-one (deferred-history) side: the value the row already has is assigned to the unloaded
+            # attribute, or the loaded value is taken away and put back before the flush: no net change on either side
+            ao = pa["obj"]
+            ok, cur = OS.loaded(ao, "p")
+            if not ok:
+                apk = OS.pk_of(ao)
+                cols = self.U["tables"]["p"]
+                mine = [e for e in self.entries(self.of("P")) if self.usable(e) and OS.state_of(e["obj"]) == "persistent" and
+                        (self.prev_tables["p"].get(OS.pk_of(e["obj"])) or (None,) * 3)[cols.index("a_id")] == apk]
+                if not mine or self.session.dirty or self.session.new or self.session.deleted:
+                    return "skip"
+                ao.p = mine[0]["obj"]
+                return "%d.p=same(unloaded)" % pa["label"]
+            if cur is None or not self.member_ok(cur):
+                return "skip"
+            ao.p = None
+            ao.p = cur
+            return "%d.p=None,back" % pa["label"]
         if OS.state_of(pa["obj"]) == "persistent" and not OS.loaded(pa["obj"], "p")[0]:
             # KF-C37-2: assigning the many-to-one side (A.p, no active_history) while its previous value is not loaded cannot tell the
             # previous member, whose loaded P.a keeps pointing here.  Same rule as op_set_parent: applications read the reference first,
@@ -1613,7 +1632,14 @@ class Run:
     def op_sp_rollback(self, a1, a2):
         if not self.sp_stack:
             return "skip"
-        snap = self.sp_stack.pop()
+        if self.cfg.get("sp_outer") and len(self.sp_stack) >= 2 and a2 % 3 == 0:
+            # rollback of an *enclosing* savepoint while inner ones are still open: everything since that savepoint is undone
+            k = a1 % (len(self.sp_stack) - 1)
+            snap = self.sp_stack[k]
+            del self.sp_stack[k:]
+            self.bump("probe:outer_savepoint_rolled_back_with_inner_open")
+        else:
+            snap = self.sp_stack.pop()
         snap["trans"].rollback()
         self.removed_rs = []
         self.loaded_before_set.clear()
